@@ -57,6 +57,9 @@ EqO1 == IF Tier = "quick" THEN { q \in EqO : q.b = 0 } ELSE EqO
 
 Init == \/ /\ tree \in (Skel \cup Leaves \cup D1) /\ tgt = Unset /\ sys = NoSys
         \/ /\ tree = KI(0) /\ tgt = << "SYS3" >> /\ \E q \in EqO1 : sys = << q >>
+        \* four equations, one of them a repetition of an earlier one: redundant rows before
+        \* (and, in the thorough tier, after) a possibly contradicting one
+        \/ /\ tree = KI(0) /\ tgt = << "SYS4" >> /\ \E q \in EqO1 : sys = << q >>
         \/ /\ tree = KI(0) /\ tgt = << "SYS" >>
            /\ \/ \E q \in EqSet : sys = << q >>
               \/ \E q \in EqSetB : sys = << q >>
@@ -70,6 +73,14 @@ Next == \/ /\ tgt = Unset /\ NHoles(tree) > 0
            /\ UNCHANGED << tree, tgt >>
         \/ /\ tgt = << "SYS3" >> /\ Len(sys) < 3
            /\ \E q \in (IF Len(sys) = 1 THEN EqO1 ELSE EqO) : sys' = Append(sys, q)
+           /\ UNCHANGED << tree, tgt >>
+        \/ /\ tgt = << "SYS4" >> /\ Len(sys) = 1
+           /\ \E q \in EqO1 : sys' = Append(sys, q)
+           /\ UNCHANGED << tree, tgt >>
+        \/ /\ tgt = << "SYS4" >> /\ Len(sys) = 2
+           /\ \/ \E i \in 1..2 : \E q \in EqO : sys' = sys \o << sys[i], q >>
+              \/ /\ Tier # "quick"
+                 /\ \E q \in EqO : \E i \in 1..3 : sys' = sys \o << q, (sys \o << q >>)[i] >>
            /\ UNCHANGED << tree, tgt >>
 
 \* oracle sanity on the model: Cramer's rule gives a solution that Satisfies
@@ -101,7 +112,8 @@ SysSumFrom(i) == IF i > Len(sys) THEN 0
 SysSum == SysSumFrom(1)
 Emit ==
     /\ (tgt = << "SYS3" >> /\ Len(sys) = 3) => PrintSys(pp)
-    /\ (tgt # Unset /\ tgt # << "SYS" >> /\ tgt # << "SYS3" >>) =>
+    /\ (tgt = << "SYS4" >> /\ Len(sys) = 4) => PrintSys(pp)
+    /\ (tgt # Unset /\ tgt \notin { << "SYS" >>, << "SYS3" >>, << "SYS4" >> }) =>
           /\ PrintT(ToJson([kind |-> "coeff", e |-> tree, tgt |-> tgt]))
           /\ (CollectOnModel \in {"OK", "SKIP"}
               \/ PrintT(ToJson([design |-> CollectOnModel, de |-> tree, dtgt |-> tgt])))
